@@ -133,6 +133,26 @@ def gen_cases(ctx, rng):
         cases.append({"dir": rng.choice(["upstream", "downstream"]), "chain": chain, "src": src, "ops": ops, "interrupted": True,
                       "horizon": 3600 * 1000 * L.MS, "seed": 6500 + i})
         stats["interrupted"] += 1
+    # several connections through the same slicer at once (one toxic object serves every link of the proxy), their packets overlapping in
+    # time and differing in length: each connection's stream is cut on its own
+    stats["shared_by_connections"] = 0
+    for i in range(20 if ctx.tier == "quick" else 500):
+        a = rng.choice([10, 50, 100])
+        d = rng.choice([200, 2000, 5000])
+        chain = [L.tx("slicer", name="s", average_size=a, size_variation=0, delay=d)]
+        nl = rng.range(2, 3)
+        srcs = []
+        for k in range(nl):
+            t, src = 1 * L.MS + k * rng.range(0, 3) * d * 1000 + rng.range(0, 999), []
+            for _ in range(rng.range(1, 4)):
+                n = rng.range(2 * a, 40 * a) + k * 7
+                src.append({"at": t, "n": n})
+                t += rng.range(0, n // a + 2) * d * 1000 + rng.range(0, 999)
+            src.append({"at": t + 3000 * L.MS, "close": True})
+            srcs.append(src)
+        cases.append({"dir": rng.choice(["upstream", "downstream"]), "chain": chain, "src": srcs[0], "srcs": srcs, "links": nl,
+                      "horizon": 3600 * 1000 * L.MS, "seed": 8000 + i})
+        stats["shared_by_connections"] += 1
     return cases, stats
 
 
